@@ -21,7 +21,8 @@ CONSTANTS MaxL,        \* loci 0..MaxL
           ForceMulti,  \* {} or {TRUE}: also run the multi-core path with one core
           SepExit,     \* TRUE: pool processes exit one by one after close(); FALSE: atomically in join()
           Mutant,      \* "none" | "noflush" | "earlykill" | "swallow" | "overlap"
-          KeepHist     \* TRUE: carry the action history (behaviour enumeration for the replay)
+          KeepHist     \* "none" | "labels" | "full": carry the action history (behaviour enumeration for the
+                       \* replay into the implementation); "full" also records the state after every action
 
 Kill == 0
 Header == <<-1, -2>>
@@ -36,8 +37,9 @@ VARIABLES inst,      \* [nl, c, fail, kind, multi]
           bufMain, bufWr, inh,   \* unflushed stdout buffers: main, writer's process, every other child (inherited copy)
           closed, killPut,       \* pool.close() called; KILL has been enqueued
           exc, exit,             \* exception raised in main ("none" | "locus" | "load"); exit status
-          hist
-vars == <<inst, pcMain, jn, todo, pcW, pend, job, pcWr, wline, queue, out, bufMain, bufWr, inh, closed, killPut, exc, exit, hist>>
+          last, hist             \* label of the action that produced this state; history (both outside the VIEW)
+vars == <<inst, pcMain, jn, todo, pcW, pend, job, pcWr, wline, queue, out, bufMain, bufWr, inh, closed, killPut, exc, exit, last, hist>>
+view == <<inst, pcMain, jn, todo, pcW, pend, job, pcWr, wline, queue, out, bufMain, bufWr, inh, closed, killPut, exc, exit>>
 
 Min(a, b) == IF a < b THEN a ELSE b
 Max(a, b) == IF a > b THEN a ELSE b
@@ -53,9 +55,14 @@ BadBlock(nl, c, w) == LET s == BlockStart(nl, c, w)  n == BlockSize(nl, c, w)
 Block(nl, c, w) == IF Mutant = "overlap" THEN BadBlock(nl, c, w) ELSE GoodBlock(nl, c, w)
 AllLoci(nl) == [i \in 1..nl |-> i]
 
-Proj == [pm |-> pcMain, jn |-> jn, todo |-> todo, pw |-> pcW, pend |-> pend, job |-> job, pr |-> pcWr, wl |-> wline,
-         q |-> queue, out |-> out, bm |-> bufMain, bw |-> bufWr, inh |-> inh, closed |-> closed, exc |-> exc, exit |-> exit]
-Log(label, w) == hist' = IF KeepHist THEN Append(hist, [a |-> label, w |-> w, s |-> Proj']) ELSE hist
+(* projection compared with the implementation after every replayed action (a tuple, to keep the dumps small): *)
+(* 1 pcMain, 2 jn, 3 todo, 4 pcW, 5 pend, 6 job, 7 pcWr, 8 wline, 9 queue, 10 out, 11 bufMain, 12 bufWr, 13 inh,  *)
+(* 14 closed, 15 exc, 16 exit                                                                                     *)
+Proj == <<pcMain, jn, todo, pcW, pend, job, pcWr, wline, queue, out, bufMain, bufWr, inh, closed, exc, exit>>
+Log(label, w) == /\ last' = <<label, w>>
+                 /\ hist' = CASE KeepHist = "none" -> hist
+                               [] KeepHist = "labels" -> Append(hist, <<label, w>>)
+                               [] OTHER -> Append(hist, <<label, w, Proj'>>)
 
 InitFor(nl, c, fail, kind, multi) ==
   /\ inst = [nl |-> nl, c |-> c, fail |-> fail, kind |-> kind, multi |-> multi]
@@ -68,6 +75,7 @@ InitFor(nl, c, fail, kind, multi) ==
   /\ queue = <<>> /\ out = <<>> /\ bufMain = <<>> /\ bufWr = <<>> /\ inh = <<>>
   /\ closed = FALSE /\ killPut = FALSE
   /\ exc = "none" /\ exit = NoExit
+  /\ last = <<"Init", 0>>
   /\ hist = <<>>
 
 Init == \E nl \in 0..MaxL, c \in 1..MaxC, kind \in FailKinds :
@@ -186,14 +194,22 @@ MainExit0 ==
   /\ UNCHANGED <<inst, jn, queue, bufWr, inh, closed, killPut, exc>> /\ UW /\ UWr
   /\ Log("MainExit0", 0)
 
-(* the exception leaves run_stdout: multiprocessing's exit handler terminates the pool (SIGTERM: no flush) *)
-Teardown ==
+(* the exception leaves run_stdout: multiprocessing's exit handler terminates the pool.  Busy or blocked   *)
+(* children (and the writer, blocked in queue.get()) are killed by SIGTERM and do not flush; an idle pool    *)
+(* process may instead see the shutdown sentinel first and exit normally, flushing its buffer (a race): S is *)
+(* the set of worker-task processes that exit normally.  The label carries S as a bit mask.                  *)
+RECURSIVE Mask(_)
+Mask(S) == IF S = {} THEN 0 ELSE LET x == CHOOSE x \in S : TRUE IN 2 ^ (x - 1) + Mask(S \ {x})
+Teardown(S) ==
   /\ pcMain = "raised" /\ inst.multi
-  /\ pcW' = [w \in 1..inst.c |-> IF pcW[w] = "exited" THEN "exited" ELSE "killed"]
+  /\ S \subseteq {w \in 1..inst.c : pcW[w] \in {"done", "failed"}}
+  /\ out' = out \o Rep(inh, Cardinality(S))
+  /\ pcW' = [w \in 1..inst.c |-> IF w \in S THEN "exited"
+                                 ELSE IF pcW[w] \in {"exited", "idle"} THEN pcW[w] ELSE "killed"]   \* idle: never submitted
   /\ pcWr' = IF pcWr = "exited" THEN "exited" ELSE "killed"
   /\ pcMain' = "torn"
-  /\ UNCHANGED <<inst, jn, todo, pend, job, wline, queue, out, closed, killPut, exc, exit>> /\ UB
-  /\ Log("Teardown", 0)
+  /\ UNCHANGED <<inst, jn, todo, pend, job, wline, queue, closed, killPut, exc, exit>> /\ UB
+  /\ Log("Teardown", Mask(S))
 
 MainExit1 ==
   /\ pcMain = (IF inst.multi THEN "torn" ELSE "raised")
@@ -286,13 +302,16 @@ WriterStop ==
 
 (* ================================ system =====================================*)
 MainNext == \/ MainWriteHeader \/ MainFlush \/ MainStartPool \/ MainPutKill \/ MainClosePool \/ MainJoinPool
-            \/ MainExit0 \/ Teardown \/ MainExit1 \/ SingleCall \/ SingleWrite \/ SingleReturn
+            \/ MainExit0 \/ MainExit1 \/ SingleCall \/ SingleWrite \/ SingleReturn
             \/ \E w \in 1..inst.c : MainJoin(w) \/ MainRaise(w)
+            \/ \E S \in SUBSET (1..inst.c) : Teardown(S)
 WorkerNext(w) == WorkerCall(w) \/ WorkerPut(w) \/ WorkerReturn(w) \/ ChildExitW(w)
 WriterNext == WriterGet \/ WriterWrite \/ WriterStop \/ ChildExitWr
 Terminated == exit # NoExit /\ UNCHANGED vars
 Next == MainNext \/ WriterNext \/ (\E w \in 1..inst.c : WorkerNext(w)) \/ Terminated
 Spec == Init /\ [][Next]_vars
+(* for -simulate with deadlock checking off: a behaviour simply ends at exit *)
+SimSpec == Init /\ [][MainNext \/ WriterNext \/ (\E w \in 1..inst.c : WorkerNext(w))]_vars
 FairSpec == /\ Spec
             /\ WF_vars(MainNext)
             /\ WF_vars(WriterNext)
@@ -341,6 +360,9 @@ BlocksPartition == inst.multi => LET cat[w \in 0..inst.c] == IF w = 0 THEN <<>> 
 ExitOnlyAfterRaise == (exit = 1 <=> (exit # NoExit /\ exc # "none")) /\ (exc = "locus" => inst.kind = "call") /\ (exc = "load" => inst.kind = "load")
 NoFailureNoRaise == inst.fail = 0 => exc = "none"
 
-(* behaviour enumeration: print every terminal state's history *)
+(* behaviour enumeration: print every terminal state's history (CONSTRAINT) *)
 DumpFinal == (exit # NoExit) => PrintT(<<"@@J", ToJson([inst |-> inst, hist |-> hist])>>)
+(* state-graph dump: print every generated transition (ACTION_CONSTRAINT, used with VIEW view) *)
+DumpEdge == (exit = NoExit) => PrintT(<<"@@J", ToJson([inst |-> inst, f |-> Proj, a |-> last', t |-> Proj'])>>)
+DumpInit == (pcMain = "start") => PrintT(<<"@@J", ToJson([inst |-> inst, init |-> Proj])>>)
 =============================================================================
